@@ -390,15 +390,25 @@ func replayNative(pkg string, files []string, race bool) (map[string]replayOutco
 	os.WriteFile(ovFile, ob, 0o644)
 	listFile := filepath.Join(tmp, "list.txt")
 	os.WriteFile(listFile, []byte(strings.Join(files, "\n")+"\n"), 0o644)
-	args := []string{"test", "-vet=off", "-count=1", "-tags", "verif", "-overlay", ovFile, "-run", "^TestVerifReplay$", "-timeout", "300s", "-v"}
+	// build the test binary (the package directory may exist in the overlay only, so `go test` cannot
+	// chdir into it) and run it from the scratch directory
+	bin := filepath.Join(tmp, "replay.test")
+	args := []string{"test", "-c", "-o", bin, "-vet=off", "-tags", "verif", "-overlay", ovFile}
 	if race {
 		args = append(args, "-race")
 	}
 	args = append(args, pkg)
 	cmd := exec.Command("go", args...)
 	cmd.Dir = repoRoot
-	cmd.Env = append(goEnv(), "VERIF_REPLAY_LIST="+listFile)
-	out, _ := cmd.CombinedOutput()
+	cmd.Env = goEnv()
+	out, err := cmd.CombinedOutput()
+	if err != nil {
+		return outcomes, string(out), fmt.Errorf("building the native replay failed: %v", err)
+	}
+	run := exec.Command(bin, "-test.run", "^TestVerifReplay$", "-test.v", "-test.timeout", "600s")
+	run.Dir = tmp
+	run.Env = append(goEnv(), "VERIF_REPLAY_LIST="+listFile)
+	out, _ = run.CombinedOutput()
 	txt := string(out)
 	for _, line := range strings.Split(txt, "\n") {
 		if i := strings.Index(line, "NDRESULT "); i >= 0 {
